@@ -35,6 +35,13 @@ CODEC_ASSUME = [
     "DataOK/MetaOK (field widths, count = len, size = prefix + sum) are hypotheses of the round-trip theorems; they follow from the C05 invariant (C06.no_uint16_truncation)",
 ]
 
+MAP_ASSUME = [
+    "hashing (CircleHash64 / BLAKE3) is not modelled: every key carries its digest vector; theorems quantify over ALL digest functions that are functions of the key under the caller's equality",
+    "keys are plain values up to the inline key limit (KeyOk); values of any size >= 1 (larger than the limit for their key: externalised by the caller's Storable, modelled by toStorableLim)",
+    "external collision-group slabs are embedded in the element that refers to them; the storage calls made on them are in the compared effect log",
+    "Go slices / binary searches / uint32 arithmetic behave as List/Nat operations (no wrap-around under the invariant)",
+]
+
 NEST_ASSUME = [
     "value-level World model with ONE current handle per container (HandlesCurrent); two live handles to one container are findings F2/F2b (known_findings.txt), reproduced on every run by the dualhandle stream",
     "maps inside the World model use the default digester (4 levels); wrappers are the harness's SomeValue (2 bytes per level)",
@@ -95,6 +102,18 @@ PROPS = {
             "size bands are proved for the Nat model; uint32/uint16 truncation cannot occur because every slab size stays <= 1.5*32768 + one element < 65536 (band theorems)"],
         "rule": "array and map histories with sizes at maxInline, maxInline+-1, just under T/2, at thresholds {256,257,511,512,1023,1024,32767,32768,random}; all 32513 legal thresholds for the derived limits; VerifyArray/VerifyMap every 25 operations; distinct = distinct programs + thresholds",
         "explanation": "Theorems: inv_new/insert/set/remove/popIterate/setType (ArrInv: size equations, bands [T/2, 1.5T], per-element inline limit, header copies, cumulative counts, sibling links, >= 2 children at an index root, fresh IDs) for every legal T; full_slab_has_two_elems; two_max_elems_fit; access_agree (positional access = sequential traversal). The arithmetic goes through the regenerated constants: a changed constant that breaks a band stops the proofs. Tie: per-operation dump comparison (every header copy, count sum, size, next link is in the dump). Oracle: VerifyArray / VerifyMap.",
+    },
+    "C02": {
+        "streams": ["map", "mapcollide", "mpersist"], "driver": {"map": "map", "mapcollide": "map", "mpersist": "map"}, "level": "proof",
+        "trusted_base": LEAN_TB, "assumptions": MAP_ASSUME,
+        "rule": "map histories (set new / overwrite / remove present and absent / get / has / count / pop / type / three iterator flavours) at T in {256,257,511,512,1024,32768,random}; digests: the real digester, the real POOLED digester with a non-injective hash input (genuine collisions on all levels), and adversarial tables (first-level only, deeper levels, all levels, 1-3 digest levels, about one key per digest with large elements); values tiny / mid / around the value limit / just over half the element limit (externalised when larger); distinct = distinct (T, digest mode, length) programs",
+        "explanation": "Theorems: inv_new, get/has/set/remove/pop/count_refines: for EVERY digest function consistent with key equality (any hash distribution), every legal T, every number of digest levels, the map model refines dictionary operations, key-not-found exactly for absent keys, the only other refusal is the collision limit for a NEW key, MapInv (size bands, sorted unique digests, group shapes, routing by first digest, sibling links) preserved. Tie: every operation replayed on the model (observations, net storage effect, dump of every stored slab incl. collision-group slabs, periodic full dumps, decoded registers after commits). Oracle: Go map.",
+    },
+    "C12": {
+        "streams": ["mapcollide"], "driver": {"mapcollide": "map"}, "level": "proof",
+        "trusted_base": LEAN_TB, "assumptions": MAP_ASSUME,
+        "rule": "adversarial digest tables over 1-4 levels (alphabets of 2-8 values per level), collision limits 0,1,2,3,255, insert/update/remove mixes incl. grow-then-shrink; distinct = distinct programs",
+        "explanation": "Theorems: limit_refuses_new_key, limit_allows_update_and_room (refusal exactly when the first-level group already holds more than the limit and the key is new; an error returns no new state), order_canonical (ascending lexicographic digest order, full collisions in insertion order); group shapes (inline group born with two keys, exported to an external slab exactly when a first-level group exceeds the element limit, collapsed to a single element, insertion-ordered list when digests are exhausted) are part of ElemsInv, preserved by C02's theorems. Oracle: Go map + VerifyMap + no storage effect after a refusal.",
     },
     "C03": {
         "streams": ["persist", "mpersist", "storage"], "driver": {"persist": "array", "mpersist": "map", "storage": "storage"}, "level": "proof",
